@@ -22,7 +22,8 @@ RULE = (
     "1 January, 1 July, empty windows, windows before the first / after the last transaction, from-only, to-only x methods / "
     "schedules. Relations: shown in/out/intra rows and fractions = exactly those whose own calendar date lies in the window; "
     "each shown fraction record identical to the unfiltered run's; k/n labels, balances, average price equal the to-only "
-    "run's; yearly lines = the to-only run's lines with year >= from.year. Non-trivial = window that hides >= 1 fraction and "
+    "run's; k/n labels also recounted from the unfiltered trace (k = position among the event's / lot's fractions from the start "
+    "of history, n = count up to the to-date); the to-only view of a valid history is the same with -n; yearly lines = the to-only run's lines with year >= from.year. Non-trivial = window that hides >= 1 fraction and "
     "shows >= 1 fraction that uses a lot acquired before the window; distinct = hash of (history, schedule, window)"
 )
 ASSUMPTIONS = [
